@@ -91,10 +91,6 @@ Proof.
     destruct (decide (n ∈ old)); destruct (decide (n ∈ R)); set_solver.
 Qed.
 
-Lemma default_all_none (q : gmap Z expset) k : q !! k = None ->
-  es_all (default es_empty (q !! k)) = ∅.
-Proof. intros ->. reflexivity. Qed.
-
 (* Q1: q_add of fresh non-faulty on-time sectors *)
 Lemma q_add_on_time_inv qs tbl F L (q q' : gmap Z expset) e (T : gset N) :
   0 < q_unit qs -> QInv qs tbl F L q ->
